@@ -6,11 +6,10 @@ sys.path.insert(0, os.path.join(VERIF, "lib"))
 import props
 
 NA = {
- "C07": "linearizability over interleavings: Kani has no thread support, Verus cannot ingest std/crossbeam atomics and scc entry guards in place",
+ "C07": "linearizability over concurrent histories: Kani has no thread support and Verus sees the store's atomics / scc entry guards only through sequential shims, so no contract within reach quantifies over interleavings; the sequential kernel of its three mechanisms (swap only on the examined generation under the entry guard, strictly greater timestamps, the retirement-timestamp check, retry with a fresh timestamp) is decided under C01 / C12 (units update_path, atomic_ops, record_chain) and is not claimed a second time here",
  "C08": "interleaving property (readers vs flush/retire/reuse); only sequential kernels are provable and they are reported under C10/C03",
  "C14": "range scan lives entirely on crossbeam-skiplist + epoch pins, outside both tools",
  "C15": "file-system publication protocol + two whole-store recoveries; no per-function contract within reach decides it",
- "C20": "memory safety under interleavings of unsafe epoch/io_uring code; Kani is sequential only and Verus cannot ingest the unsafe code",
 }
 PENDING = "unit not built yet in this session (DESIGN §3); no claim is kept without its unit"
 ALL = ["C%02d" % i for i in range(1, 21)]
